@@ -84,7 +84,7 @@ def write_replay_txt(path, rp):
 _replay_counter = [0]
 
 
-def run_replay(prop, tier, rp, record=False, wall_cap=30):
+def run_replay(prop, tier, rp, record=False, wall_cap=30, trace_path=None):
     """Run one replay description (dict) in a fresh process; returns the result record."""
     _replay_counter[0] += 1
     base = "%s/rp.%d.%d" % (TMP, os.getpid(), _replay_counter[0])
@@ -95,6 +95,8 @@ def run_replay(prop, tier, rp, record=False, wall_cap=30):
         extra = ["--sub", rp["sub"]] if rp.get("sub") else []
         if record:
             extra.append("--record")
+        if trace_path:
+            extra += ["--trace", trace_path]
         res = run_batch(prop, tier, rp["seed"], 1, 1, out, extra, wall_cap)
     else:
         txt = base + ".txt"
@@ -103,6 +105,8 @@ def run_replay(prop, tier, rp, record=False, wall_cap=30):
                "--tmpdir", TMP]
         if record:
             cmd.append("--record")
+        if trace_path:
+            cmd += ["--trace", trace_path]
         subprocess.run(cmd, check=False)
         res = []
         try:
